@@ -78,6 +78,79 @@ theorem arg_reemitted_verbatim (ts r : List Tok) (a : Arg) (h : parseArg ts = so
       exact ⟨⟨false, by simpa using h1⟩, h2⟩
     · cases h
 
+/-! ### The whole argument list -/
+
+/-- The tokens an argument was read from: its alias with the `=` as it was spelled, then the
+expression. -/
+def argOrig (a : Arg) (j : Bool) : List Tok :=
+  (match a.alias with
+   | some n => [Tok.ident n, Tok.punct '=' j]
+   | none => []) ++ a.expr.toks
+
+/-- `SplitOf as ts`: the token list `ts` is the arguments `as`, each token for token, in order,
+with exactly one comma between neighbours and at most one after the last. -/
+inductive SplitOf : List Arg → List Tok → Prop where
+  | nil : SplitOf [] []
+  | one (a : Arg) (j : Bool) : SplitOf [a] (argOrig a j)
+  | cons (a : Arg) (j : Bool) (c : Tok) (as : List Arg) (rest : List Tok) :
+      c.isComma = true → SplitOf as rest → SplitOf (a :: as) (argOrig a j ++ c :: rest)
+
+theorem args_loop_reemitted : ∀ (fuel : Nat) (ts : List Tok) (as : List Arg),
+    parseArgsLoop fuel ts = some as → SplitOf as ts
+  | 0, _, _, h => by simp [parseArgsLoop] at h
+  | _ + 1, [], as, h => by
+    simp [parseArgsLoop] at h
+    subst h; exact .nil
+  | fuel + 1, t :: ts', as, h => by
+    simp only [parseArgsLoop] at h
+    cases ha : parseArg (t :: ts') with
+    | none => simp [ha] at h
+    | some p =>
+      obtain ⟨a, r⟩ := p
+      obtain ⟨⟨j, hj⟩, _⟩ := arg_reemitted_verbatim _ _ _ ha
+      simp only [ha] at h
+      cases r with
+      | nil =>
+        simp at h
+        subst h
+        have : argOrig a j = t :: ts' := by simpa [argOrig] using hj
+        rw [← this]; exact .one a j
+      | cons c r' =>
+        simp only at h
+        by_cases hc : c.isComma = true
+        · simp only [hc, if_true] at h
+          cases hrec : parseArgsLoop fuel r' with
+          | none => simp [hrec] at h
+          | some as' =>
+            simp [hrec] at h
+            subst h
+            have ih := args_loop_reemitted fuel r' as' hrec
+            have : argOrig a j ++ c :: r' = t :: ts' := by simpa [argOrig] using hj
+            rw [← this]; exact .cons a j c as' r' hc ih
+        · simp [hc] at h
+
+/-- **Every argument is handed on token for token, unchanged and in order.** Whatever list the
+derive accepts, the arguments it found are the input cut at commas: nothing dropped, duplicated
+or reordered; the only tokens not inside an argument are the separating commas (an optional one
+in front, after the literal, and an optional trailing one). -/
+theorem args_reemitted_verbatim (ts : List Tok) (as : List Arg) (h : parseArgs ts = some as) :
+    SplitOf as ts ∨ ∃ c rest, ts = c :: rest ∧ c.isComma = true ∧ SplitOf as rest := by
+  unfold parseArgs at h
+  cases ts with
+  | nil => simp at h; subst h; exact Or.inl .nil
+  | cons t r =>
+    simp only at h
+    by_cases hc : t.isComma = true
+    · simp only [hc, if_true] at h
+      exact Or.inr ⟨t, r, rfl, hc, args_loop_reemitted _ _ _ h⟩
+    · simp only [hc] at h
+      exact Or.inl (args_loop_reemitted _ _ _ h)
+
+/-- Non-vacuity: `, a + 1, n = f(x, y),` is the two arguments `a + 1` and `n = f(x, y)`. -/
+example : (parseArgs [.punct ',' false, .ident "a", .punct '+' false, .lit "1", .punct ',' false, .ident "n",
+    .punct '=' false, .ident "f", .group .paren [.ident "x", .punct ',' false, .ident "y"], .punct ',' false]).map
+      (fun as => as.map fun a => (a.alias, a.expr.toks.length)) = some [(none, 3), (some "n", 2)] := by decide
+
 /-! ### Where the scanner does not split -/
 
 /-- Tokens that trigger none of the special rules: anything but `<`, `|`, `:` and `,` - in
@@ -123,6 +196,160 @@ theorem plain_tokens_taken_whole : ∀ (e rest acc : List Tok) (fuel : Nat),
       have := plain_tokens_taken_whole e rest (acc ++ [t]) f (fun u hu => hp u (by simp [hu])) hr
         (by simp at hf; omega) (Or.inr trivial)
       simpa using this
+
+/-! #### The whole list, for arguments made of plain tokens and groups -/
+
+/-- `es` joined by the separator `c`. -/
+def joinC (c : Tok) : List (List Tok) → List Tok
+  | [] => []
+  | [e] => e
+  | e :: es => e ++ c :: joinC c es
+
+/-- What `Expr::parse` makes of a complete argument: a lone identifier, or a token sequence. -/
+def mkExpr (e : List Tok) : Expr :=
+  match e with
+  | [.ident s] => .ident s
+  | _ => .other e
+
+/-- The argument does not begin with `ident =` (which would be read as an alias). -/
+def NotAliasStart (e : List Tok) : Prop := ∀ a j r, e ≠ .ident a :: .punct '=' j :: r
+
+theorem startsWithAlias_none (e rest : List Tok) (hne : e ≠ []) (hp : ∀ t ∈ e, Plain t)
+    (hna : NotAliasStart e) (hr : StartsWithComma rest) : startsWithAlias (e ++ rest) = none := by
+  cases e with
+  | nil => exact absurd rfl hne
+  | cons t e' =>
+    cases t with
+    | ident a =>
+      cases e' with
+      | nil =>
+        cases rest with
+        | nil => simp [startsWithAlias]
+        | cons c r =>
+          have hc : c.isComma = true := hr
+          cases c <;> simp_all [startsWithAlias, Tok.isComma, Tok.isPunct]
+      | cons u e'' =>
+        cases u with
+        | punct ch j =>
+          by_cases hch : ch = '='
+          · subst hch; exact absurd rfl (hna a j e'')
+          · simp [startsWithAlias, hch]
+        | _ => simp [startsWithAlias]
+    | _ => simp [startsWithAlias]
+
+theorem comma_is_punct (c : Tok) (hc : c.isComma = true) : ∃ j, c = .punct ',' j := by
+  cases c <;> simp_all [Tok.isComma, Tok.isPunct]
+
+theorem parseExpr_plain (e rest : List Tok) (hne : e ≠ []) (hp : ∀ t ∈ e, Plain t)
+    (hr : StartsWithComma rest) : parseExpr (e ++ rest) = some (mkExpr e, rest) := by
+  have whole : takeUntilComma ((e ++ rest).length + 1) (e ++ rest) false [] = some (e, rest) := by
+    cases e with
+    | nil => exact absurd rfl hne
+    | cons t e' =>
+      have ht : Plain t := hp t (by simp)
+      simp only [List.cons_append, takeUntilComma, ht.2.2.2, exprStep_plain t (e' ++ rest) ht]
+      have := plain_tokens_taken_whole e' rest [t] ((t :: e' ++ rest).length)
+        (fun u hu => hp u (by simp [hu])) hr (by simp; omega) (Or.inr trivial)
+      simpa using this
+  cases e with
+  | nil => exact absurd rfl hne
+  | cons t e' =>
+    cases t with
+    | ident s =>
+      cases e' with
+      | nil =>
+        cases rest with
+        | nil => simp [parseExpr, mkExpr]
+        | cons c r =>
+          obtain ⟨j, rfl⟩ := comma_is_punct c hr
+          simp [parseExpr, mkExpr]
+      | cons u e'' =>
+        have hu : Plain u := hp u (by simp)
+        have hnc : ∀ j, u ≠ .punct ',' j := by
+          intro j h; subst h; simp [Plain, Tok.isComma, Tok.isPunct] at hu
+        have hm : mkExpr (.ident s :: u :: e'') = .other (.ident s :: u :: e'') := by simp [mkExpr]
+        rw [hm]
+        unfold parseExpr
+        split
+        · rename_i heq; simp at heq
+        · rename_i heq
+          simp only [List.cons_append, List.cons.injEq] at heq
+          exact absurd heq.2.1 (hnc _)
+        · rw [whole]
+    | punct ch j =>
+      have hm : mkExpr (.punct ch j :: e') = .other (.punct ch j :: e') := by simp [mkExpr]
+      rw [hm]; unfold parseExpr
+      split
+      · rename_i heq; simp at heq
+      · rename_i heq; simp at heq
+      · rw [whole]
+    | lit l =>
+      have hm : mkExpr (.lit l :: e') = .other (.lit l :: e') := by simp [mkExpr]
+      rw [hm]; unfold parseExpr
+      split
+      · rename_i heq; simp at heq
+      · rename_i heq; simp at heq
+      · rw [whole]
+    | group d g =>
+      have hm : mkExpr (.group d g :: e') = .other (.group d g :: e') := by simp [mkExpr]
+      rw [hm]; unfold parseExpr
+      split
+      · rename_i heq; simp at heq
+      · rename_i heq; simp at heq
+      · rw [whole]
+
+/-- **Commas inside parentheses, brackets and braces never split, and every top-level comma
+does**: a list of arguments, each a non-empty sequence of plain tokens and delimited groups
+(whatever the groups contain), joined by commas, is read back as exactly those arguments — for
+any number of arguments of any length. -/
+theorem plain_list_split_at_commas (c : Tok) (hc : c.isComma = true) :
+    ∀ (es : List (List Tok)) (fuel : Nat),
+      (∀ e ∈ es, e ≠ []) → (∀ e ∈ es, ∀ t ∈ e, Plain t) → (∀ e ∈ es, NotAliasStart e) →
+      es.length < fuel →
+      parseArgsLoop fuel (joinC c es) = some (es.map fun e => { alias := none, expr := mkExpr e })
+  | [], fuel, _, _, _, hf => by
+    cases fuel with
+    | zero => omega
+    | succ f => simp [joinC, parseArgsLoop]
+  | [e], fuel, hne, hp, hna, hf => by
+    cases fuel with
+    | zero => omega
+    | succ f =>
+      have he : e ≠ [] := hne e (by simp)
+      have hpe := hp e (by simp)
+      have h1 : parseArg (e ++ []) = some ({ alias := none, expr := mkExpr e }, []) := by
+        unfold parseArg
+        rw [startsWithAlias_none e [] he hpe (hna e (by simp)) trivial, parseExpr_plain e [] he hpe trivial]
+      simp only [List.append_nil] at h1
+      cases e with
+      | nil => exact absurd rfl he
+      | cons t e' => simp [joinC, parseArgsLoop, h1]
+  | e :: e2 :: es, fuel, hne, hp, hna, hf => by
+    cases fuel with
+    | zero => omega
+    | succ f =>
+      have he : e ≠ [] := hne e (by simp)
+      have hpe := hp e (by simp)
+      have hr : StartsWithComma (c :: joinC c (e2 :: es)) := hc
+      have h1 : parseArg (e ++ c :: joinC c (e2 :: es))
+          = some ({ alias := none, expr := mkExpr e }, c :: joinC c (e2 :: es)) := by
+        unfold parseArg
+        rw [startsWithAlias_none e _ he hpe (hna e (by simp)) hr, parseExpr_plain e _ he hpe hr]
+      have ih := plain_list_split_at_commas c hc (e2 :: es) f
+        (fun x hx => hne x (by simp [hx])) (fun x hx => hp x (by simp [hx]))
+        (fun x hx => hna x (by simp [hx])) (by simp at hf ⊢; omega)
+      cases e with
+      | nil => exact absurd rfl he
+      | cons t e' =>
+        simp only [joinC, List.cons_append] at h1 ⊢
+        simp only [parseArgsLoop, h1, hc, if_true, ih, List.map_cons]
+
+/-- Non-vacuity: `f(a, b), [x, y], {p, q} + 1` — three arguments although there are six commas. -/
+example : (parseArgsLoop 9 (joinC (.punct ',' false)
+    [[.ident "f", .group .paren [.ident "a", .punct ',' false, .ident "b"]],
+     [.group .bracket [.ident "x", .punct ',' false, .ident "y"]],
+     [.group .brace [.ident "p", .punct ',' false, .ident "q"], .punct '+' false, .lit "1"]])).map List.length
+    = some 3 := by decide
 
 /-! #### Generic argument lists -/
 
